@@ -184,6 +184,17 @@ func (c *Ctx) resolveX(v ssa.Value, e *env, strip bool) (ssa.Value, *env) {
 						continue
 					}
 				}
+				// element k of a local array literal ([2]any{a, b} ranged over)
+				if ia, ok := x.X.(*ssa.IndexAddr); ok && e != nil && !e.dom {
+					if al, isAl := ia.X.(*ssa.Alloc); isAl && arrayOf(al.Type()) != nil {
+						if n, isC := constIntVal(c.resolve(ia.Index, e)); isC {
+							if elems := localArrayElems(al); elems != nil && n >= 0 && int(n) < len(elems) && elems[n] != nil {
+								v = elems[n]
+								continue
+							}
+						}
+					}
+				}
 				// element k of a literal slice (an inlined helper ranging over its variadic arguments)
 				if ia, ok := x.X.(*ssa.IndexAddr); ok && e != nil && !e.dom {
 					if _, isSl := ia.X.Type().Underlying().(*types.Slice); isSl {
@@ -212,6 +223,22 @@ func (c *Ctx) resolveX(v ssa.Value, e *env, strip bool) (ssa.Value, *env) {
 		case *ssa.ChangeInterface:
 			v = x.X
 			continue
+		case *ssa.Index:
+			// element k of a local array literal that was loaded whole ([2]any{a, b} ranged over by value)
+			if e == nil || e.dom {
+				return v, e
+			}
+			if ld, ok := x.X.(*ssa.UnOp); ok && ld.Op == token.MUL {
+				if al, isAl := ld.X.(*ssa.Alloc); isAl && arrayOf(al.Type()) != nil {
+					if n, isC := constIntVal(c.resolve(x.Index, e)); isC {
+						if elems := localArrayElems(al); elems != nil && n >= 0 && int(n) < len(elems) && elems[n] != nil {
+							v = elems[n]
+							continue
+						}
+					}
+				}
+			}
+			return v, e
 		case *ssa.BinOp:
 			// integer arithmetic on path constants (loop counters over a literal argument list)
 			if e == nil || e.dom || (x.Op != token.ADD && x.Op != token.SUB) {
@@ -321,6 +348,23 @@ func (c *Ctx) keyD(v ssa.Value, e *env, depth int, seen map[ssa.Value]bool) stri
 		if s, ok := c.viewIndexKey(x.X, x.Index, e); ok {
 			return s
 		}
+		if ld, ok := x.X.(*ssa.UnOp); ok && ld.Op == token.MUL {
+			if al, ok := ld.X.(*ssa.Alloc); ok && arrayOf(al.Type()) != nil {
+				if _, isC := c.resolve(x.Index, e).(*ssa.Const); !isC {
+					if elems := localArrayElems(al); elems != nil {
+						var parts []string
+						for _, el := range elems {
+							if el == nil {
+								parts = append(parts, "zero")
+							} else {
+								parts = append(parts, k(el))
+							}
+						}
+						return "elem{" + strings.Join(parts, "|") + "}"
+					}
+				}
+			}
+		}
 		return k(x.X) + "[" + k(x.Index) + "]"
 	case *ssa.Lookup:
 		if s, ok := c.viewIndexKey(x.X, x.Index, e); ok {
@@ -330,6 +374,23 @@ func (c *Ctx) keyD(v ssa.Value, e *env, depth int, seen map[ssa.Value]bool) stri
 	case *ssa.UnOp:
 		switch x.Op {
 		case token.MUL:
+			if ia, ok := x.X.(*ssa.IndexAddr); ok {
+				if al, ok := ia.X.(*ssa.Alloc); ok && arrayOf(al.Type()) != nil {
+					if _, isC := c.resolve(ia.Index, e).(*ssa.Const); !isC {
+						if elems := localArrayElems(al); elems != nil {
+							var parts []string
+							for _, el := range elems {
+								if el == nil {
+									parts = append(parts, "zero")
+								} else {
+									parts = append(parts, k(el))
+								}
+							}
+							return "elem{" + strings.Join(parts, "|") + "}"
+						}
+					}
+				}
+			}
 			return k(x.X)
 		case token.NOT:
 			return "!" + k(x.X)
@@ -351,8 +412,14 @@ func (c *Ctx) keyD(v ssa.Value, e *env, depth int, seen map[ssa.Value]bool) stri
 	case *ssa.TypeAssert:
 		return k(x.X) + ".(" + typeStr(x.AssertedType) + ")"
 	case *ssa.Convert:
+		if widensInt(x.X.Type(), x.Type()) {
+			return k(x.X) // int(op) for an integer-typed enum: the same number
+		}
 		return "conv:" + typeStr(x.Type()) + "(" + k(x.X) + ")"
 	case *ssa.ChangeType:
+		if widensInt(x.X.Type(), x.Type()) {
+			return k(x.X)
+		}
 		return "conv:" + typeStr(x.Type()) + "(" + k(x.X) + ")"
 	case *ssa.Slice:
 		if lit, ok := c.sliceLiteral(x, e); ok {
@@ -381,6 +448,9 @@ func (c *Ctx) keyD(v ssa.Value, e *env, depth int, seen map[ssa.Value]bool) stri
 		}
 		delete(seen, x)
 		sort.Strings(parts)
+		if u := uniq(parts); len(u) == 1 && u[0] != "phi#" {
+			return u[0] // every incoming value is the same expression (e.g. the rune read before and in a loop)
+		}
 		return "phi{" + strings.Join(uniq(parts), "|") + "}"
 	case *ssa.MakeClosure:
 		var bs []string
@@ -605,6 +675,72 @@ func mentions(v, target ssa.Value, depth int) bool {
 		}
 	}
 	return false
+}
+
+// widensInt: a conversion between integer types that cannot change the value.
+func widensInt(from, to types.Type) bool {
+	fb, ok1 := from.Underlying().(*types.Basic)
+	tb, ok2 := to.Underlying().(*types.Basic)
+	if !ok1 || !ok2 || fb.Info()&types.IsInteger == 0 || tb.Info()&types.IsInteger == 0 {
+		return false
+	}
+	size := func(b *types.Basic) int {
+		switch b.Kind() {
+		case types.Int8, types.Uint8:
+			return 8
+		case types.Int16, types.Uint16:
+			return 16
+		case types.Int32, types.Uint32:
+			return 32
+		}
+		return 64
+	}
+	fu, tu := fb.Info()&types.IsUnsigned != 0, tb.Info()&types.IsUnsigned != 0
+	switch {
+	case fu == tu:
+		return size(tb) >= size(fb)
+	case fu && !tu:
+		return size(tb) > size(fb)
+	}
+	return false
+}
+
+// localArrayElems: the values stored by constant index into a local array that is only ever written that
+// way and read by index (a composite literal); nil if the array is used in any other way.
+func localArrayElems(al *ssa.Alloc) []ssa.Value {
+	at := arrayOf(al.Type())
+	if at == nil || at.Len() > 64 {
+		return nil
+	}
+	out := make([]ssa.Value, at.Len())
+	for _, ref := range *al.Referrers() {
+		switch r := ref.(type) {
+		case *ssa.IndexAddr:
+			n, isC := constIntVal(r.Index)
+			nStores := 0
+			for _, r2 := range *r.Referrers() {
+				switch x := r2.(type) {
+				case *ssa.Store:
+					if x.Addr != ssa.Value(r) {
+						return nil
+					}
+					nStores++
+					if !isC || n < 0 || n >= at.Len() || out[n] != nil {
+						return nil
+					}
+					out[n] = x.Val
+				case *ssa.UnOp, *ssa.DebugRef:
+				default:
+					return nil
+				}
+			}
+			_ = nStores
+		case *ssa.Slice, *ssa.UnOp, *ssa.DebugRef:
+		default:
+			return nil
+		}
+	}
+	return out
 }
 
 // foldCmp decides an ==/!= comparison whose operands are known along the path: two constants, or nil
